@@ -171,4 +171,92 @@ theorem ourCaps_srOf (cfg : Cfg) (f : Family) :
   · have : ¬ ((addpathEntries (ourCaps cfg)).any (fun e => decide ((e.1, e.2.1) = f)) = true) := fun h => hc (hiff.1 h)
     rw [if_neg this, if_neg hc]
 
+/-! ### every other capability `Capabilities.new` can emit -/
+
+theorem ourCaps_graceful_mem (cfg : Cfg) (fl t : Nat) (fams : List Triple) :
+    Cap.graceful fl t fams ∈ ourCaps cfg ↔
+      ∃ rt, cfg.graceful = some rt ∧ fl = 0 ∧ t = restartTime cfg rt % 4096 ∧ fams = cfg.families.map (famTriple 128) := by
+  simp only [ourCaps, List.mem_append, mem_ite_nil, List.mem_map]
+  cases cfg.graceful <;> simp
+
+theorem ourCaps_hostname_mem (cfg : Cfg) (h d : Bytes) :
+    Cap.hostname h d ∈ ourCaps cfg ↔ cfg.host ≠ [] ∧ h = cfg.host.take 64 ∧ d = cfg.domain.take 64 := by
+  simp only [ourCaps, List.mem_append, mem_ite_nil, List.mem_map]
+  cases cfg.graceful <;> cases hh : cfg.host <;> simp
+
+theorem ourCaps_software_mem (cfg : Cfg) (v : Bytes) :
+    Cap.software v ∈ ourCaps cfg ↔ cfg.software = true ∧ v = cfg.swVersion := by
+  simp only [ourCaps, List.mem_append, mem_ite_nil, List.mem_map]
+  cases cfg.graceful <;> simp
+
+theorem ourCaps_operational (cfg : Cfg) : Cap.operational ∈ ourCaps cfg ↔ cfg.operational = true := by
+  simp only [ourCaps, List.mem_append, mem_ite_nil, List.mem_map]
+  cases cfg.graceful <;> simp
+
+theorem ourCaps_linkLocal (cfg : Cfg) : Cap.linkLocal ∈ ourCaps cfg ↔ cfg.linkLocal = true := by
+  simp only [ourCaps, List.mem_append, mem_ite_nil, List.mem_map]
+  cases cfg.graceful <;> simp
+
+theorem ourCaps_multisession_mem (cfg : Cfg) (c : Bool) (v : Bytes) :
+    Cap.multisession c v ∈ ourCaps cfg ↔ cfg.multiSession = true ∧ c = false ∧ (v = [0] ∨ v = [1]) := by
+  simp only [ourCaps, List.mem_append, mem_ite_nil, List.mem_map]
+  cases cfg.graceful <;> simp <;> grind
+
+theorem ourCaps_pathsLimit_mem (cfg : Cfg) (es : List Triple) :
+    Cap.pathsLimit es ∈ ourCaps cfg ↔ cfg.addPath ≠ 0 ∧ ourPathsLimit cfg ≠ [] ∧ es = ourPathsLimit cfg := by
+  simp only [ourCaps, List.mem_append, mem_ite_nil, List.mem_map]
+  cases cfg.graceful <;> simp <;> grind
+
+/-- the limits advertised: the configured non-zero limits of the families on which we advertise
+    ADD-PATH *receive* -/
+theorem mem_ourPathsLimit (cfg : Cfg) (a s l : Nat) :
+    (a, s, l) ∈ ourPathsLimit cfg ↔
+      ((a, s), l) ∈ cfg.pathsLimit ∧ (a, s) ∈ addPathAllowed ∧ (a, s) ∈ cfg.addpaths ∧ cfg.addPath % 2 = 1 ∧ 0 < l := by
+  simp only [ourPathsLimit, List.mem_map, List.mem_filter, Bool.and_eq_true, List.contains_iff_mem,
+    decide_eq_true_eq]
+  constructor
+  · rintro ⟨⟨⟨a', s'⟩, l'⟩, ⟨h1, ⟨⟨h2, h3⟩, h4⟩, h5⟩, h6⟩
+    simp only [Prod.mk.injEq] at h6
+    obtain ⟨rfl, rfl, rfl⟩ := h6
+    exact ⟨h1, h2, h3, h4, h5⟩
+  · rintro ⟨h1, h2, h3, h4, h5⟩
+    exact ⟨((a, s), l), ⟨h1, ⟨⟨h2, h3⟩, h4⟩, h5⟩, rfl⟩
+
+theorem ourCaps_never (cfg : Cfg) :
+    Cap.refreshCisco ∉ ourCaps cfg ∧ (∀ c v, Cap.unknown c v ∉ ourCaps cfg) ∧ (∀ v, Cap.multisession true v ∉ ourCaps cfg) := by
+  refine ⟨?_, ?_, ?_⟩
+  · simp only [ourCaps, List.mem_append, mem_ite_nil, List.mem_map]
+    cases cfg.graceful <;> simp
+  · intro c v
+    simp only [ourCaps, List.mem_append, mem_ite_nil, List.mem_map]
+    cases cfg.graceful <;> simp
+  · intro v h
+    have := (ourCaps_multisession_mem cfg true v).1 h
+    simp at this
+
+theorem any_isMs_iff (caps : List Cap) (b : Bool) : caps.any (isMs b) = true ↔ ∃ v, Cap.multisession b v ∈ caps := by
+  simp only [List.any_eq_true]
+  constructor
+  · rintro ⟨c, hc, h⟩
+    cases c <;> simp [isMs] at h
+    subst h; exact ⟨_, hc⟩
+  · rintro ⟨v, hv⟩; exact ⟨_, hv, by simp [isMs]⟩
+
+theorem ourCaps_isMs (cfg : Cfg) : (ourCaps cfg).any (isMs false) = cfg.multiSession ∧ (ourCaps cfg).any (isMs true) = false := by
+  constructor
+  · cases h : cfg.multiSession with
+    | true => exact (any_isMs_iff _ _).2 ⟨[0], (ourCaps_multisession_mem cfg false [0]).2 ⟨h, rfl, Or.inl rfl⟩⟩
+    | false =>
+      cases h2 : (ourCaps cfg).any (isMs false) with
+      | false => rfl
+      | true =>
+        obtain ⟨v, hv⟩ := (any_isMs_iff _ _).1 h2
+        have := ((ourCaps_multisession_mem cfg false v).1 hv).1
+        rw [h] at this; cases this
+  · cases h2 : (ourCaps cfg).any (isMs true) with
+    | false => rfl
+    | true =>
+      obtain ⟨v, hv⟩ := (any_isMs_iff _ _).1 h2
+      exact absurd hv ((ourCaps_never cfg).2.2 v)
+
 end Exa.Open
